@@ -35,15 +35,18 @@ func setAuthority(m proto.Message, authority string) {
 	}
 }
 
-func (h *harness) runHandler(url string, bz []byte, how string) {
+func (h *harness) runHandler(url string, bz []byte, how string) { h.runHandlerRes(url, bz, how) }
+
+// runHandlerRes: decode, ValidateBasic, real handler on a cache context; returns "decode-err" | "vb:<error>" | "ok" | "err:<error>" | "panic"
+func (h *harness) runHandlerRes(url string, bz []byte, how string) (res string) {
 	m, o := decodeMsg(h.reg, url, bz)
 	if o.Class != "ok" {
 		h.rep.Count("handler:decode-" + o.Class)
-		return
+		return "decode-err"
 	}
 	sm, ok := m.(sdk.Msg)
 	if !ok {
-		return
+		return "not-a-msg"
 	}
 	tname := url[strings.LastIndex(url, ".")+1:]
 	if vb, ok := m.(sdk.HasValidateBasic); ok {
@@ -51,17 +54,17 @@ func (h *harness) runHandler(url string, bz []byte, how string) {
 		if ov.Class == "panic" {
 			h.fail("validate", "recovered-by-baseapp", ov, tname+".ValidateBasic panics on "+how,
 				map[string]interface{}{"stage": "handlers", "type_url": url, "msg_bytes_hex": fmt.Sprintf("%x", bz), "how": how, "panic": ov.Msg})
-			return
+			return "panic"
 		}
 		if ov.Class != "ok" {
 			h.rep.Count("handler:rejected-by-ValidateBasic")
 			h.rep.Case(fmt.Sprintf("handlers|%s|vb-err|%s", tname, short(strings.SplitN(ov.Msg, ":", 2)[0], 30)), false)
-			return
+			return "vb:" + ov.Msg
 		}
 	}
 	handler := h.c.App.MsgServiceRouter().Handler(sm)
 	if handler == nil {
-		return
+		return "no-handler"
 	}
 	ctx, _ := h.c.Ctx.CacheContext()
 	oh := guard(func() error { _, err := handler(ctx, sm); return err })
@@ -71,7 +74,12 @@ func (h *harness) runHandler(url string, bz []byte, how string) {
 		h.fail("handler", "recovered-by-baseapp", oh, tname+" passes ValidateBasic and its handler panics on "+how,
 			map[string]interface{}{"stage": "handlers", "type_url": url, "msg_bytes_hex": fmt.Sprintf("%x", bz), "how": how, "panic": oh.Msg, "top_frame": oh.Top,
 				"note": "executed through MsgServiceRouter().Handler on a cache context (what runTx and gov proposal execution call)"})
+		return "panic"
 	}
+	if oh.Class == "err" {
+		return "err:" + oh.Msg
+	}
+	return "ok"
 }
 
 func (h *harness) stageHandlers() {
